@@ -8,8 +8,9 @@
     content is read as the characters it holds; any other markup breaks the slot):
       - a double-quoted attribute value (production AttValue, with the attribute-value
         normalisation of section 3.3.3 and the line-end handling of section 2.11),
-      - element content made of character data and references only (production content
-        restricted to CharData and Reference; the CDATA-end sequence is forbidden).
+      - element content made of character data, references and CDATA sections (production
+        content without child elements; the CDATA-end sequence is forbidden), including
+        the blank-text removal heuristic of libxml2 (see lex_text).
     The lexers return the decoded value when the slot is still exactly one value, and
     Broken otherwise (parse error, or the value ended early so that the rest of the
     caller string is read as markup).
@@ -214,12 +215,102 @@ Definition lex_attr (s : str) : attr_result :=
       else BrokenAttr
   end.
 
-(** [lex_text s] : [s] is the whole content of an element. *)
-Definition lex_text (s : str) : text_result :=
+(** [lex_text_conf s] : [s] is the whole content of an element, read the way XML 1.0
+    prescribes (every character of the content is kept). *)
+Definition lex_text_conf (s : str) : text_result :=
   match fold_left (step Text) s start with
   | Run (MNorm _ _) acc => OneText (rev acc)
   | _ => BrokenText
   end.
+
+(** ---- blank-text removal (libxml2 with the NOBLANKS option, which pptx.oxml sets through
+    remove_blank_text=True) ----
+    libxml2 hands character data to the tree builder in chunks and asks, chunk by chunk,
+    whether the chunk is ignorable white space (function areBlanks of parser.c).  Without a
+    DTD the answer is a heuristic: a chunk is DROPPED when it is not empty, holds only
+    blanks (space, TAB, LF, CR), the element has received nothing yet (no text node, no
+    child) and the next raw byte is a carriage return, or a less-than sign that does not
+    open the end tag.  Where the chunks end (xmlParseCharData):
+      - fast path: the scan runs over ASCII 0x20..0x7F (except ampersand, less-than), TAB
+        and LF; a chunk ends at a CR, an ampersand, a less-than sign or any other
+        character.  At CR LF the CR is skipped and the next chunk starts at the LF, still
+        in the fast path when the character after the LF is 0x20..0x7F, TAB or LF;
+        otherwise (bare CR, or CR LF before another character) the slow path takes over.
+      - slow path (xmlParseCharDataComplex): copies characters (line ends normalised) up
+        to the next ampersand or less-than sign into a buffer that is flushed as a chunk
+        whenever it holds 300 bytes, and at the end.
+    A reference or a CDATA section is handed to the tree directly (never dropped), and
+    the scan after it starts in the fast path again.  Once the element holds a text node
+    nothing is dropped any more.
+    The lexer below therefore has a PENDING phase (nothing handed over yet: the pending
+    chunk is all blank) before it behaves as [step Text]. *)
+Definition is_blank (c : N) : bool := (c =? c_sp) || (c =? c_tab) || (c =? c_lf) || (c =? c_cr).
+Definition is_fast (c : N) : bool := ((32 <=? c) && (c <=? 127)) || (c =? c_tab) || (c =? c_lf).
+(** XML_PARSER_BIG_BUFFER_SIZE *)
+Definition buf_size : nat := 300.
+
+(** Where the scan is while nothing has been handed over: in the fast path; just after a
+    CR met in the fast path; just after the LF of a CR LF met in the fast path; in the slow
+    path with [n] bytes in the buffer ([n] = buf_size: the buffer has just been flushed and
+    the next character decides whether that chunk is dropped) and whether the previous
+    character was a CR. *)
+Inductive bpath := PFast | PCr | PLf | PSlow (n : nat) (cr : bool).
+
+(** One raw character in the pending phase; [pend] is the pending chunk, line ends
+    normalised, reversed.  [PStay p q]: still pending, the chunk is now [q] (a dropped chunk
+    shows as a chunk that restarts).  [PKeep q]: the pending phase is over, [q] is handed
+    over and the character is read by the ordinary lexer. *)
+Inductive pend_res := PStay (p : bpath) (pend : str) | PKeep (pend : str).
+
+Definition fast_next (pend : str) (c : N) : pend_res :=
+  if (c =? c_sp) || (c =? c_tab) || (c =? c_lf) then PStay PFast (c :: pend)
+  else if c =? c_cr then PStay PCr [c_lf]            (* chunk before a CR: dropped *)
+  else if c =? c_lt then PKeep []                    (* chunk before markup: dropped *)
+  else PKeep pend.
+
+Definition slow_next (n : nat) (cr : bool) (pend : str) (c : N) : pend_res :=
+  if (c =? c_lf) && cr then PStay (PSlow n false) pend
+  else if (n =? buf_size)%nat then
+    (if c =? c_cr then PStay (PSlow 1 true) [c_lf]   (* full buffer before a CR: dropped *)
+     else if c =? c_lt then PKeep []                 (* full buffer before markup: dropped *)
+     else PKeep pend)
+  else if is_blank c then
+    PStay (PSlow (S n) (c =? c_cr)) ((if c =? c_cr then c_lf else c) :: pend)
+  else if c =? c_lt then PKeep []
+  else PKeep pend.
+
+Definition pend_next (p : bpath) (pend : str) (c : N) : pend_res :=
+  match p with
+  | PFast => fast_next pend c
+  | PCr => if c =? c_lf then PStay PLf pend else slow_next 1 false pend c
+  | PLf => if is_fast c then fast_next pend c else slow_next 1 false pend c
+  | PSlow n cr => slow_next n cr pend c
+  end.
+
+Inductive tst := TPend (p : bpath) (pend : str) | TLive (st : lst).
+
+Definition tstep (t : tst) (c : N) : tst :=
+  match t with
+  | TLive st => TLive (step Text st c)
+  | TPend p pend =>
+      match pend_next p pend c with
+      | PStay p' q => TPend p' q
+      | PKeep q => TLive (step Text (Run (MNorm 0 false) q) c)
+      end
+  end.
+
+Definition tstart : tst := TPend PFast [].
+
+Definition text_of (t : tst) : text_result :=
+  match t with
+  | TPend _ pend => OneText (rev pend)     (* before the end tag a chunk is never dropped *)
+  | TLive (Run (MNorm _ _) acc) => OneText (rev acc)
+  | TLive _ => BrokenText
+  end.
+
+(** [lex_text s] : [s] is the whole content of an element, read by libxml2 as pptx.oxml
+    configures it. *)
+Definition lex_text (s : str) : text_result := text_of (fold_left tstep s tstart).
 
 (** ---- what the parser hands back for a value written literally ---- *)
 (** Line ends (section 2.11) and, in attribute values, white space (section 3.3.3). *)
@@ -232,6 +323,26 @@ Fixpoint norm_go (cx : ctx) (after_cr : bool) (s : str) : str :=
       else (match cx with AttrDq => attr_ws c | Text => c end) :: norm_go cx false r
   end.
 Definition norm (cx : ctx) (s : str) : str := norm_go cx false s.
+
+(** What element text written literally (raw TAB, LF, CR; plain saxutils.escape) is read
+    back as: the pending phase of the lexer run over the caller string itself; from the
+    first character that is kept on, the line-end handling. *)
+Fixpoint bdn_go (p : bpath) (pend : str) (s : str) : str :=
+  match s with
+  | [] => rev pend
+  | c :: r =>
+      if is_blank c then
+        match pend_next p pend c with
+        | PStay p' q => bdn_go p' q r
+        | PKeep q => rev q ++ norm_go Text false (c :: r)
+        end
+      else rev pend ++ norm_go Text false (c :: r)
+  end.
+Definition blank_drop_normalise (s : str) : str := bdn_go PFast [] s.
+
+(** what a literally written value is read back as, per context *)
+Definition read_back (cx : ctx) (s : str) : str :=
+  match cx with AttrDq => norm AttrDq s | Text => blank_drop_normalise s end.
 
 (** Strings the normalisation leaves alone. *)
 Definition no_cr (s : str) : bool := forallb (fun c => negb (c =? c_cr)) s.
